@@ -248,6 +248,9 @@ fn run_iter(ctx: &RunCtx, tier: Tier, cup: bool, multi: bool, iterations: usize)
             )
         }
     }
+    if let Err((k, m)) = final_states_announced(&log) {
+        return out.fail(k, m);
+    }
     if iterations == 1 {
         if let Err((k, m)) = oracle(&log, mode, bad_url, cup) {
             return out.fail(k, m);
@@ -272,11 +275,61 @@ fn run_iter(ctx: &RunCtx, tier: Tier, cup: bool, multi: bool, iterations: usize)
     out
 }
 
+/// "exactly one result last, preceded by the FINAL schedule and protocol state": the protocol state
+/// and the last-contact time announced before a result are the ones the policy is handed at its
+/// next consultation (nothing that belongs to the check is settled after the announcement).
+pub fn final_states_announced(log: &[Obs]) -> V {
+    let mut last_proto: Option<PState> = None;
+    let mut last_sched: Option<Sched> = None;
+    let mut pending: Option<(usize, Option<PState>, Option<Sched>)> = None; // result position + what was announced before it
+    for (i, o) in log.iter().enumerate() {
+        match o {
+            Obs::Note(n) if n == "RESTART" => {
+                pending = None;
+                last_proto = None;
+                last_sched = None;
+            }
+            Obs::Ev(Ev::State(State::CheckingForUpdates(_))) => {
+                last_proto = None;
+                last_sched = None;
+            }
+            Obs::Ev(Ev::Proto(p)) => last_proto = Some(*p),
+            Obs::Ev(Ev::Sched(s)) => last_sched = Some(*s),
+            Obs::Ev(Ev::Result(_)) => pending = Some((i, last_proto, last_sched)),
+            // exchanges after the result (pings of a reboot wait) legitimately change the state
+            Obs::Req(_) => pending = None,
+            Obs::ComputeNext { sched, state, .. } => {
+                if let Some((r, p, s)) = pending.take() {
+                    if let Some(p) = p {
+                        if p != *state {
+                            return bad(
+                                "protocol state announced before the result is not the final one",
+                                format!("announced {p:?} before the result at #{r}, the policy is handed {state:?} at #{i}"),
+                            );
+                        }
+                    }
+                    if let Some(s) = s {
+                        if s.last_update_time != sched.last_update_time {
+                            return bad(
+                                "schedule announced before the result is not the final one",
+                                format!("announced last update time {:?} before the result at #{r}, the policy is handed {:?} at #{i}", s.last_update_time, sched.last_update_time),
+                            );
+                        }
+                    }
+                }
+            }
+            _ => {}
+        }
+    }
+    Ok(())
+}
+
 /// Every completed check of an arbitrary log (segments ending with Idle) judged by the flow oracle.
 pub fn judge_checks(log: &[Obs]) -> V {
     judge_checks_cfg(log, false, false)
 }
 pub fn judge_checks_cfg(log: &[Obs], cup: bool, bad_url: bool) -> V {
+    final_states_announced(log)?;
     let mut start = 0;
     for (i, o) in log.iter().enumerate() {
         if matches!(o, Obs::Note(n) if n == "RESTART") {
@@ -832,6 +885,18 @@ fn parts(tier: Tier) -> Vec<PartDef> {
             json!({"driver": "the C08 history harness: histories of checks (15 classes incl. retries and event-report answers that dictate an interval), pings, end of wait and restarts, with and without CUP, with an unusable service URL",
                    "history_length": format!("0..{}", tier.pick(3, 4)), "oracle": "every completed check of every history is judged by the flow reference", "exploration": "full product"}),
             move |ctx| crate::props::c08::run_judged_by(ctx, tier.pick(3, 4), false, &|log, cup, bad_url| judge_checks_cfg(log, cup, bad_url)),
+        ),
+        PartDef::new(
+            "flows-in-sibling-histories-c09",
+            crate::props::c09::cross_cfg("C04/flows-in-sibling-histories-c09"),
+            json!({"driver": "the C09 history harness (1-3 apps, responses naming sub-lists with various statuses, retries, pings, restarts with presets)", "oracle": "every completed check judged by the flow reference"}),
+            move |ctx| crate::cross::judged_by(crate::props::c09::run_for_cross(ctx), &|log, cup| judge_checks_cfg(log, cup, false)),
+        ),
+        PartDef::new(
+            "flows-in-sibling-histories-c18",
+            crate::props::c18::cross_cfg("C04/flows-in-sibling-histories-c18"),
+            json!({"driver": "the C18 history harness (install attempts over two apps, plan failures, restarts on other versions and with clock anomalies)", "oracle": "every completed check judged by the flow reference"}),
+            move |ctx| crate::cross::judged_by(crate::props::c18::run_for_cross(ctx), &|log, cup| judge_checks_cfg(log, cup, false)),
         ),
         PartDef::new(
             "reboot-wait-with-pings",
